@@ -568,7 +568,32 @@ def rule_hist(ctx) -> None:
         return bool(_re.fullmatch(r'\w+\["metrics"\]\["%s"\]' % _re.escape(k), e) or _re.match(r'\w+\["metrics"\]\.get\("%s"' % _re.escape(k), e))
 
     fh, ff = fields(hit_r[0]), fields(fresh_r[-1])
-    differ = sorted(k for k in fh if k in ff and fh[k] != ff[k] and not cached_copy(k, fh[k]))
+
+    # what the entry stores under each metrics key: the literal put into the cache ({"metrics": {**result_metrics, k: v, ..}})
+    stored: Dict[str, str] = {}
+    for x in walk_no_defs(inner.node):
+        if isinstance(x, ast.Dict):
+            for k0, v0 in zip(x.keys, x.values):
+                if k0 is not None and const_str(k0) == "metrics" and isinstance(v0, ast.Dict):
+                    for k1, v1 in zip(v0.keys, v0.values):
+                        if k1 is not None and const_str(k1):
+                            stored[const_str(k1)] = src(v1)
+                        elif k1 is None and isinstance(v1, ast.Name):
+                            for y in walk_no_defs(inner.node):
+                                if isinstance(y, ast.Assign) and any(isinstance(t, ast.Name) and t.id == v1.id for t in y.targets) and isinstance(y.value, ast.Dict):
+                                    for k2, v2 in zip(y.value.keys, y.value.values):
+                                        if k2 is not None and const_str(k2):
+                                            stored.setdefault(const_str(k2), src(v2))
+
+    def replayed(k: str, expr: str) -> bool:
+        """the hit path reads a stored metrics key whose stored value is the very expression the fresh return reports for k"""
+        import re as _re
+        e = expr.replace("'", '"')
+        m = _re.match(r'(?:float|int)?\(?\w+\["metrics"\](?:\.get\("(\w+)"|\["(\w+)"\])', e)
+        k2 = (m.group(1) or m.group(2)) if m else None
+        return k2 is not None and stored.get(k2) == ff.get(k)
+
+    differ = sorted(k for k in fh if k in ff and fh[k] != ff[k] and not cached_copy(k, fh[k]) and not replayed(k, fh[k]))
     missing = sorted(set(ff) - set(fh))
     ctx.check(not missing, "C01.HIST", "t1/hit-return-has-every-field", inner.loc(hit_r[0].ast), "the hit return carries every field of the fresh return",
               f"fields {missing} exist only on the fresh return")
